@@ -64,16 +64,30 @@ impl Object {
                     }
 
                     if !child_valid_name {
-                        comps.push(Component::new_i(
-                            c.content
-                                .iter()
-                                .position(|r| {
-                                    let a = r.as_ref() as *const _ as *const ();
-                                    let b = child as *const _ as *const ();
-                                    std::ptr::eq(a, b)
-                                })
-                                .unwrap(),
-                        ));
+                        let b = child as *const _ as *const ();
+                        let index = c.content.iter().position(|r| {
+                            let a = r.as_ref() as *const _ as *const ();
+                            std::ptr::eq(a, b)
+                        });
+
+                        match index {
+                            Some(index) => comps.push(Component::new_i(index)),
+                            // Named-only content whose own name is missing or
+                            // empty (a malformed story document) is addressed
+                            // by the key it is stored under.
+                            None => {
+                                let key = c
+                                    .named_content
+                                    .iter()
+                                    .find(|(_, v)| {
+                                        let a = v.as_ref() as *const Container as *const ();
+                                        std::ptr::eq(a, b)
+                                    })
+                                    .map(|(k, _)| k.as_str())
+                                    .unwrap_or_default();
+                                comps.push(Component::new(key));
+                            }
+                        }
                     }
 
                     container = c.get_object().get_parent();
@@ -116,9 +130,17 @@ impl Object {
                 p = path.get_tail();
             };
 
-            nearest_container.unwrap().content_at_path(&p, 0, -1)
+            match nearest_container {
+                Some(nearest_container) => nearest_container.content_at_path(&p, 0, -1),
+                // An object outside of any container (e.g. one that a save
+                // put on the evaluation stack) has nothing to resolve against.
+                None => SearchResult::new(rtobject, true),
+            }
         } else {
-            Object::get_root_container(rtobject).content_at_path(path, 0, -1)
+            match Object::get_root_container(rtobject.clone()) {
+                Some(root) => root.content_at_path(path, 0, -1),
+                None => SearchResult::new(rtobject, true),
+            }
         }
     }
 
@@ -184,17 +206,15 @@ impl Object {
         }
     }
 
-    pub fn get_root_container(rtobject: Rc<dyn RTObject>) -> Rc<Container> {
+    pub fn get_root_container(rtobject: Rc<dyn RTObject>) -> Option<Rc<Container>> {
         let mut ancestor = rtobject;
 
         while let Some(p) = ancestor.get_object().get_parent() {
             ancestor = p;
         }
 
-        match ancestor.into_any().downcast::<Container>() {
-            Ok(c) => c.clone(),
-            _ => panic!(), // Not possible
-        }
+        // None for an object that is neither a container nor inside one
+        ancestor.into_any().downcast::<Container>().ok()
     }
 }
 
